@@ -31,6 +31,11 @@ def _pre_items(r, plan_words, secrets, n, plan_opts=None, addrs=()):
     items = []
     for _ in range(n):
         c = r.random()
+        if plan_opts is not None and r.random() < 0.12 and plan_opts.get("salt") is not None:
+            # the very same run was already done once in this process (repeated runs)
+            items.append({"kind": "run", "step": {"entry": r.choice(["files", "file", "io", "cli"]), "opts": dict(plan_opts),
+                                                  "in": "in", "out": "other/again%d" % len(items), "dump": None}, "bad": False})
+            continue
         if plan_opts is not None and r.random() < 0.3:
             # an earlier run over the SAME input in this process, with other options (library use)
             o2 = dict(plan_opts)
